@@ -1,9 +1,9 @@
 (* Extraction of the collection model (C19). ExtrOcamlBasic only. *)
 From Coq Require Import Extraction ExtrOcamlBasic.
-From T38 Require Import Base.Bytes Model.Float32 Model.Collection Model.Search Model.Glob Model.GlobSel Model.CollSel.
+From T38 Require Import Base.Bytes Model.Float32 Model.Collection Model.Search Model.Glob Model.GlobSel Model.CollSel Model.SetBounds.
 Extraction Language OCaml.
 Extraction "model.ml" Z.add Z.of_N Nat.add cnew cset cdelete cget ccount cstring_count cpoint_count
   ctotal_weight scan_ids search_values spatial_list scan_expires c_spatial bounds_ok bounds_exact
   rect64_of_bits f64_of_bits bits_of_f32 bits_of_f64 geo_search intersects32 rtree_rect
   coll_scan_ids coll_search_ids coll_scan_count coll_search_count scan_hit search_hit
-  coll_scan_count_at coll_search_count_at.
+  coll_scan_count_at coll_search_count_at set_bounds_rect set_bounds_rect_pinned rect_ordered.
